@@ -38,7 +38,7 @@ pub const POOL_SIZES: [usize; 6] = [1, 2, 3, 4, 16, 64];
 
 // ------------------------------------------------------------------------------ C07
 
-pub const C07_RULE: &str = "positions including checkmated, stalemated, single-legal-move and in-check ones (cage / pin-check themes, placements, endgames, reachable walks), half-move clock 0..150 and 0..3 prior registrations of the position (so draw-by-history states with legal moves are included), depth 0..5 (3 only for <= 8 men, 4 for <= 4 men, 5 for <= 3 men; 6..14 on forced lines where every node has one legal move), rayon pools of 1/2/3/4/16/64 threads, through alpha_beta_search with a new or a used generator (optionally followed by a second search with the same context on the same position or on the same placement with the other side to move) and through Game::select_alpha_beta_best_move: depth 0 -> Err(DepthTooLow) (a terminal position at depth 0 may report either declared error); no legal move and depth >= 1 -> Err(NoAvailableMoves); otherwise Ok(move) whose (kind, from, to, promotion, captured) is in the reference legal set; full observable snapshot identical before and after; no panic. Heavy context: one SearchContext serves depth-4 searches of tiny endgames until several hundred thousand nodes have passed through its cache. Non-trivial = terminal, single legal move, in check, depth 0, clock >= 100 or repetition count 3 with legal moves, or pool size != 1; distinct = hash of the case.";
+pub const C07_RULE: &str = "positions including checkmated, stalemated, single-legal-move and in-check ones (cage / pin-check themes, placements, endgames, reachable walks), half-move clock 0..150 and 0..3 prior registrations of the position (so draw-by-history states with legal moves are included), depth 0..5 (3 only for <= 8 men, 4 for <= 4 men, 5 for <= 3 men; 6..14 on forced lines where every node has one legal move), rayon pools of 1/2/3/4/16/64 threads, through alpha_beta_search with a new or a used generator (optionally followed by a second search with the same context on the same position or on the same placement with the other side to move) and through Game::select_alpha_beta_best_move: depth 0 -> Err(DepthTooLow) (a terminal position at depth 0 may report either declared error); no legal move and depth >= 1 -> Err(NoAvailableMoves); otherwise Ok(move) whose (kind, from, to, promotion, captured) is in the reference legal set; full observable snapshot identical before and after; no panic. Deep blocked: kings and blocked pawn pairs (only kings can move) searched at growing depths from 8..11 on (steps of 1..3, new context each) for as long as the last search visited fewer than 60 000 nodes, at most 22. Heavy context: one SearchContext serves depth-4 searches of tiny endgames until several hundred thousand nodes have passed through its cache. Non-trivial = terminal, single legal move, in check, depth 0, clock >= 100 or repetition count 3 with legal moves, or pool size != 1; distinct = hash of the case.";
 
 #[derive(Clone, Debug, Serialize, Deserialize)]
 pub struct SearchCase {
@@ -390,6 +390,121 @@ fn run_c07_heavy_context(env: &Env, agg: &mut Stats) -> Option<Violation> {
     None
 }
 
+/// Kings and blocked pawn pairs only: the tree is so narrow (and so full of transpositions)
+/// that depths of 12..18 plies are affordable - depths the command line accepts like any other.
+pub struct DeepBlocked {
+    pub name: &'static str,
+}
+
+#[derive(Clone, Debug, Serialize, Deserialize)]
+pub struct DeepCase {
+    pub fen: String,
+    pub depth: u8,
+    pub pool: u8,
+    pub via_game: bool,
+}
+
+impl Prop for DeepBlocked {
+    type Case = DeepCase;
+    fn name(&self) -> &'static str {
+        self.name
+    }
+    fn max_shrink_iters(&self) -> u32 {
+        24
+    }
+    fn strategy(&self, _tier: Tier) -> BoxedStrategy<DeepCase> {
+        (
+            0u8..64,
+            0u8..64,
+            prop::collection::vec((0u8..8, 1u8..6), 1..4),
+            any::<bool>(),
+            any::<u8>(),
+            0u8..6,
+            any::<bool>(),
+        )
+            .prop_map(|(wk, bk, pairs, wtm, depth, pool, via_game)| {
+                let mut items: Vec<(u8, u8, bool)> = Vec::new();
+                let mut files = [false; 8];
+                for (f, r) in pairs {
+                    if files[f as usize] {
+                        continue;
+                    }
+                    files[f as usize] = true;
+                    // white pawn on rank r+1 (index r), black pawn right in front of it
+                    items.push((r * 8 + f, 0, true));
+                    items.push(((r + 1) * 8 + f, 0, false));
+                }
+                let mut p = gen::build(&gen::RawPos {
+                    wk,
+                    bk,
+                    items,
+                    white_to_move: wtm,
+                    rights: 0,
+                    ep_file: None,
+                    half: 0,
+                });
+                p.half = 0;
+                DeepCase {
+                    fen: p.fen(),
+                    depth,
+                    pool,
+                    via_game,
+                }
+            })
+            .boxed()
+    }
+    fn cases(&self, tier: Tier) -> u32 {
+        tier.pick(96, 1_200)
+    }
+    fn test(&self, c: &DeepCase, st: &mut Stats) -> TestResult {
+        let pos = Pos::from_fen(&c.fen).map_err(Failure::new)?;
+        let legal = pos.legal_moves();
+        // only positions in which nothing but kings can move (no capture of a pawn in one move)
+        if legal.is_empty() || legal.iter().any(|m| m.cap.is_some() || pos.sq[m.from as usize].map(|x| x.0) != Some(P::King)) {
+            return Ok(());
+        }
+        let threads = POOL_SIZES[c.pool as usize % POOL_SIZES.len()];
+        let p = pool(threads);
+        // deeper and deeper (new context each time) for as long as the last search stayed small:
+        // the work is bounded by node counts, not by the clock
+        let mut depth = 8 + c.depth % 4;
+        let mut deepest = 0;
+        loop {
+            let (r, nodes) = if c.via_game {
+                let mut game = Game::from_board(to_board(&pos), depth);
+                let r = no_panic(|| p.install(|| game.select_alpha_beta_best_move().map_err(|e| format!("{:?}", e))));
+                (r, game.searched_position_count())
+            } else {
+                let mut board = to_board(&pos);
+                let mut g = MoveGenerator::new();
+                let mut ctx = SearchContext::new(depth);
+                let r = no_panic(|| p.install(|| alpha_beta_search(&mut ctx, &mut board, &mut g).map_err(|e| format!("{:?}", e))));
+                (r, ctx.searched_position_count())
+            };
+            st.count("deep_searches", 1);
+            st.count("deep_search_nodes", nodes as u64);
+            match r {
+                Ok(Ok(m)) => {
+                    let mv = mv_of(&m);
+                    if !legal.contains(&mv) {
+                        return Err(fail_pos(format!("depth-{} search returned {}, which is not legal", depth, mv_text(&mv)), &pos));
+                    }
+                }
+                Ok(Err(e)) => return Err(fail_pos(format!("depth-{} search answered {} although {} legal moves exist", depth, e, legal.len()), &pos)),
+                Err(m) => return Err(fail_pos(format!("depth-{} search ({} threads) panicked: {}", depth, threads, m), &pos)),
+            }
+            deepest = depth;
+            if nodes > 60_000 || depth >= 22 {
+                break;
+            }
+            depth += 1 + (c.depth / 4) % 3;
+        }
+        st.label(&format!("deepest-{}", deepest.min(22)));
+        st.nontrivial(fp_of(c), || json!({"fen": pos.fen(), "deepest_depth": deepest, "threads": threads, "via_game": c.via_game}));
+        Ok(())
+    }
+}
+
 pub fn c07_checks() -> Vec<Box<dyn DynCheck>> {
     vec![
         Box::new(C07Searches),
@@ -398,6 +513,7 @@ pub fn c07_checks() -> Vec<Box<dyn DynCheck>> {
             run: run_c07_heavy_context,
             replay: |_| Err("re-run the check".into()),
         }),
+        Box::new(DeepBlocked { name: "C07/deep-blocked" }),
     ]
 }
 
@@ -1079,7 +1195,7 @@ pub fn c08_checks() -> Vec<Box<dyn DynCheck>> {
 
 // ------------------------------------------------------------------------------ C10
 
-pub const C10_RULE: &str = "seed positions: the six standard perft positions, special-move-rich hand-made seeds and generated set-ups (castle/ep/promotion themes, placements <= 12 men) x depth 0..3 (4 for the initial position and sparse seeds) x rayon pools of 1..16 threads (all sixteen sizes at depth 1 on the standard positions) x generator state (new; the same call twice on one generator; reused across other seeds; reused across increasing depths exactly as run_count_positions does; asked for attack maps and check verdicts of the very position first): MoveGenerator::count_positions(d) must equal the cumulative reference perft sum_{k=1..d+1} perft(k). The built `chess count-positions --depth d` binary is run and its 'depth: k, positions: n' lines compared with the same sums. Non-trivial = depth >= 2 and the reference tree contains en passant, castling or promotion, or the generator was reused; distinct = hash of (seed, depth, pool, state).";
+pub const C10_RULE: &str = "seed positions: the six standard perft positions, special-move-rich hand-made seeds and generated set-ups (castle/ep/promotion themes, placements <= 12 men) x depth 0..3 (4 for the initial position and sparse seeds) x rayon pools of 1..16 threads (all sixteen sizes at depth 1 on the standard positions) x generator state (new; the same call twice on one generator; reused across other seeds; reused across increasing depths exactly as run_count_positions does; asked for attack maps and check verdicts of the very position first): MoveGenerator::count_positions(d) must equal the cumulative reference perft sum_{k=1..d+1} perft(k). Deep endgames: 2..4 men and cage set-ups at the deepest depth (4..9) whose reference tree stays below 200 000 sequences, then up to three plies deeper (below 2.5 million sequences) against the relation count(P, d) = moves(P) + sum of count(successor, d-1) with a new generator per successor. The built `chess count-positions --depth d` binary is run and its 'depth: k, positions: n' lines compared with the same sums. Non-trivial = depth >= 2 and the reference tree contains en passant, castling or promotion, or the generator was reused; distinct = hash of (seed, depth, pool, state).";
 
 pub fn cumulative_perft(pos: &Pos, depth: u8) -> (u64, bool) {
     // returns sum_{k=1..depth+1} perft(k) and whether a special move occurs in the tree
@@ -1130,6 +1246,11 @@ pub struct CountCase {
 const COUNT_POOLS: [usize; 16] = [1, 2, 5, 16, 3, 4, 6, 7, 8, 9, 10, 11, 12, 13, 14, 15];
 
 fn count_once(c: &CountCase, st: &mut Stats) -> TestResult {
+    count_once_with(c, st, None)
+}
+
+/// `known`: (depth, reference count, special move in the tree) computed by the caller.
+fn count_once_with(c: &CountCase, st: &mut Stats, known: Option<(u8, u64, bool)>) -> TestResult {
     let pos = Pos::from_fen(&c.fen).map_err(Failure::new)?;
     let threads = COUNT_POOLS[c.pool as usize % COUNT_POOLS.len()];
     let p = pool(threads);
@@ -1172,7 +1293,10 @@ fn count_once(c: &CountCase, st: &mut Stats) -> TestResult {
             Ok(n) => n as u64,
             Err(m) => return Err(fail_pos(format!("count_positions({}) panicked: {}", d, m), &pos)),
         };
-        let (want, special) = cumulative_perft(&pos, d);
+        let (want, special) = match known {
+            Some((kd, n, sp)) if kd == d => (n, sp),
+            _ => cumulative_perft(&pos, d),
+        };
         special_any |= special;
         st.count("count_calls", 1);
         st.count("reference_sequences", want);
@@ -1224,10 +1348,113 @@ impl Prop for C10Generated {
             .boxed()
     }
     fn cases(&self, tier: Tier) -> u32 {
-        tier.pick(200, 4_000)
+        tier.pick(480, 4_000)
     }
     fn test(&self, c: &CountCase, st: &mut Stats) -> TestResult {
         count_once(c, st)
+    }
+}
+
+/// Few men, many plies: the depth is the largest one (up to 8) whose reference tree stays below a
+/// node budget, so positions come back inside one subtree with less depth left.
+pub struct C10DeepEndgames;
+impl Prop for C10DeepEndgames {
+    type Case = CountCase;
+    fn name(&self) -> &'static str {
+        "C10/deep-endgames"
+    }
+    fn max_shrink_iters(&self) -> u32 {
+        40
+    }
+    fn strategy(&self, _tier: Tier) -> BoxedStrategy<CountCase> {
+        (
+            prop_oneof![
+                3 => gen::endgame(1).prop_map(|r| gen::build(&r).fen()),
+                1 => gen::endgame(2).prop_map(|r| gen::build(&r).fen()),
+                4 => gen::pawn_race().prop_map(|r| gen::build(&r).fen()),
+                1 => gen::cage_theme().prop_map(|r| gen::build(&r).fen()),
+            ],
+            6u8..=9,
+            0u8..16,
+            0u8..5,
+        )
+            .prop_map(|(fen, depth, pool, state)| CountCase { fen, depth, pool, state })
+            .boxed()
+    }
+    fn cases(&self, tier: Tier) -> u32 {
+        tier.pick(96, 2_400)
+    }
+    fn test(&self, c: &CountCase, st: &mut Stats) -> TestResult {
+        let pos = Pos::from_fen(&c.fen).map_err(Failure::new)?;
+        // deepest depth <= the requested one within the budget (counted on the reference)
+        let budget = 200_000u64;
+        let mut depth = 0u8;
+        let mut known = (0u8, 0u64, false);
+        for d in 1..=c.depth {
+            // a tree of depth d+1 has at least as many sequences as the last one had leaves
+            let (n, sp) = cumulative_perft(&pos, d);
+            if n > budget {
+                break;
+            }
+            depth = d;
+            known = (d, n, sp);
+            if n * 3 > budget {
+                break;
+            }
+        }
+        if depth < 4 {
+            return Ok(());
+        }
+        st.label(&format!("depth-{}", depth));
+        count_once_with(&CountCase { depth, state: if c.state % 5 == 3 { 0 } else { c.state }, ..c.clone() }, st, Some(known))?;
+        // deeper than the reference can afford: the count of a position at depth d is the number
+        // of its moves plus the counts of its successors at depth d - 1, each successor counted
+        // by a brand-new generator
+        let side = to_color(pos.side);
+        let threads = COUNT_POOLS[c.pool as usize % COUNT_POOLS.len()];
+        let p = pool(threads);
+        let legal = pos.legal_moves();
+        let mut deepest = depth;
+        for d in depth + 1..=c.depth.max(depth + 1).min(9) {
+            let mut total = legal.len() as u64;
+            for m in &legal {
+                let child = pos.make(m);
+                let mut cb = to_board(&child);
+                let mut cg = MoveGenerator::new();
+                total += p.install(|| cg.count_positions(d - 1, &mut cb, to_color(child.side))) as u64;
+                if total > 2_500_000 {
+                    break;
+                }
+            }
+            if total > 2_500_000 {
+                break;
+            }
+            let mut board = to_board(&pos);
+            let mut g = MoveGenerator::new();
+            let got = match no_panic(|| p.install(|| g.count_positions(d, &mut board, side))) {
+                Ok(n) => n as u64,
+                Err(m) => return Err(fail_pos(format!("count_positions({}) panicked: {}", d, m), &pos)),
+            };
+            st.count("count_calls_checked_against_successor_counts", 1);
+            if got != total {
+                return Err(fail_pos(
+                    format!(
+                        "count_positions(depth {}) = {} but the {} moves plus the successors' count_positions(depth {}) (new generator each) add up to {} ({} threads)",
+                        d,
+                        got,
+                        legal.len(),
+                        d - 1,
+                        total,
+                        threads
+                    ),
+                    &pos,
+                ));
+            }
+            deepest = d;
+        }
+        st.label(&format!("deepest-{}", deepest));
+        st.nontrivial(fp_of(c) ^ 0xDEE9, || json!({"fen": pos.fen(), "reference_depth": depth, "deepest_depth": deepest}));
+        Ok(())
     }
 }
 
@@ -1377,6 +1604,7 @@ pub fn c10_checks() -> Vec<Box<dyn DynCheck>> {
             replay: replay_c10_standard,
         }),
         Box::new(C10Generated),
+        Box::new(C10DeepEndgames),
         Box::new(FnCheck {
             name: "C10/cli",
             run: run_c10_cli,
